@@ -404,9 +404,15 @@ fn splice(printed: &str, d: &Directive, nloops: usize, nrets: usize) -> Result<S
     }
     let mut s = out.join("\n");
     for (name, ty) in &d.let_types {
-        let from = format!("let mut {name} = Vec::new();");
-        if !s.contains(&from) { return Err(format!("side-car let-type {name}: accumulator not found (anchor lost)")); }
-        s = s.replace(&from, &format!("let mut {name}: {ty} = Vec::new();"));
+        let from_mut = format!("let mut {name} = ");
+        let from = format!("let {name} = ");
+        if s.contains(&from_mut) {
+            s = s.replacen(&from_mut, &format!("let mut {name}: {ty} = "), 1);
+        } else if s.contains(&from) {
+            s = s.replacen(&from, &format!("let {name}: {ty} = "), 1);
+        } else {
+            return Err(format!("side-car let-type {name}: binding not found (anchor lost)"));
+        }
     }
     // named return value
     if let Some(r) = &d.ret {
